@@ -183,27 +183,38 @@ fn deliver(sim: &mut Sim, i: usize, model: &mut RefRtt, samples: &mut u32, karn:
 }
 
 pub fn arb_case(max: usize) -> BoxedStrategy<RttCase> {
-    let gap = prop_oneof![
-        6 => (1u64..=2_000).prop_map(|ms| ms * 1_000_000),
-        1 => Just(600_000_000_000u64),
-        1 => Just(600_000_000_001u64),
-        1 => Just(599_999_999_999u64),
-        1 => (601u64..=1_000).prop_map(|s| s * 1_000_000_000),
-        1 => (1u64..600).prop_map(|s| s * 1_000_000_000),
-    ];
-    let delay = prop_oneof![
-        5 => (1u64..=400).prop_map(|ms| ms * 1_000_000),
-        2 => (1u64..=40_000).prop_map(|ms| ms * 1_000_000),
-        1 => 1_000_000u64..=40_000_000_000,
-    ];
-    let txn = (gap, prop_oneof![4 => Just(0u8), 1 => 1u8..=3], delay, prop_oneof![19 => Just(false), 1 => Just(true)], prop_oneof![5 => Just(false), 1 => Just(true)])
-        .prop_map(|(gap, retrans, delay, lost, overlap)| Txn { gap, retrans, delay, lost, overlap });
     (
-        prop_oneof![2 => Just(500_000u64), 2 => 1_000u64..=3_000_000],
+        prop_oneof![2 => Just(500_000u64), 2 => 1_000u64..=3_000_000, 1 => (1u64..=1000).prop_map(|k| k * 3_000)],
         prop_oneof![2 => Just(1_000u64), 1 => 1u64..=100_000],
-        proptest::collection::vec(txn, 1..=max),
     )
-        .prop_map(|(rto_us, gran_us, txns)| RttCase { rto_us, gran_us, txns })
+        .prop_flat_map(move |(rto_us, gran_us)| {
+            let gap = prop_oneof![
+                6 => (1u64..=2_000).prop_map(|ms| ms * 1_000_000),
+                1 => Just(600_000_000_000u64),
+                1 => Just(600_000_000_001u64),
+                1 => Just(599_999_999_999u64),
+                1 => (601u64..=1_000).prop_map(|s| s * 1_000_000_000),
+                1 => (1u64..600).prop_map(|s| s * 1_000_000_000),
+            ];
+            // response delays: generic ones plus values in a special relation to the configuration (RTO/3 makes the
+            // first computed RTO equal the configured one; RTO - G does so when 2R < G; G/2, G, RTO, RTO/2 sit on the
+            // max(G, 4*RTTVAR) switch and on the first retransmission)
+            let rto_ns = rto_us * 1000;
+            let g_ns = gran_us * 1000;
+            let specials: Vec<u64> = vec![rto_ns / 3, rto_ns.saturating_sub(g_ns), g_ns / 2, g_ns, rto_ns, rto_ns / 2, rto_ns / 4, g_ns / 8, 2 * g_ns]
+                .into_iter()
+                .map(|d| d.max(1))
+                .collect();
+            let delay = prop_oneof![
+                5 => (1u64..=400).prop_map(|ms| ms * 1_000_000),
+                2 => (1u64..=40_000).prop_map(|ms| ms * 1_000_000),
+                1 => 1_000_000u64..=40_000_000_000,
+                3 => proptest::sample::select(specials),
+            ];
+            let txn = (gap, prop_oneof![4 => Just(0u8), 1 => 1u8..=3], delay, prop_oneof![19 => Just(false), 1 => Just(true)], prop_oneof![5 => Just(false), 1 => Just(true)])
+                .prop_map(|(gap, retrans, delay, lost, overlap)| Txn { gap, retrans, delay, lost, overlap });
+            proptest::collection::vec(txn, 1..=max).prop_map(move |txns| RttCase { rto_us, gran_us, txns })
+        })
         .boxed()
 }
 
